@@ -10,7 +10,7 @@ use crate::engines::c05::{alphabet, Req};
 use crate::wire::{self, End};
 use serde_json::{json, Value};
 
-const MENU: [&str; 10] = ["get-hit", "get-404", "get-params", "post-3", "post-nul-first", "post-buffer+1", "get-headers", "head-hit", "put-short", "get-close"];
+const MENU: [&str; 11] = ["get-hit", "get-404", "get-params", "post-3", "post-nul-first", "post-buffer+1", "get-headers", "head-hit", "put-short", "get-close", "get-with-payload"];
 
 struct Stream { names: Vec<&'static str>, bytes: Vec<u8>, /* per request: (start, head_len, total_len, request_line_len) */ layout: Vec<(usize, usize, usize, usize)>, heads: Vec<bool>, body_kinds: Vec<&'static str> }
 
